@@ -7,13 +7,13 @@ import (
 	"bufio"
 	"crypto/sha256"
 	"encoding/hex"
-	"strings"
 	"encoding/json"
 	"flag"
 	"fmt"
 	"os"
 	"path/filepath"
 	"sort"
+	"strings"
 	"sync"
 )
 
